@@ -5,7 +5,10 @@
 (*                        lab : <<label of node 1..n>>]>>,                 *)
 (*             r (window_radius), kernel, orient : "after" | "before" |    *)
 (*             "symmetric" | "directional", excluded : set of labels,      *)
-(*             mask : BOOLEAN, nullify : BOOLEAN]                          *)
+(*             mask : BOOLEAN, nullify : BOOLEAN,                          *)
+(*             offset (kernel_args offset: distances <= offset weigh 0),   *)
+(*             knorm (kernel_args normalize: the weights of the distances  *)
+(*             1..r are divided by their sum)]                             *)
 (* In a forest a directed walk of k steps from u to v exists iff u is the  *)
 (* k-th ancestor of v, and then it is unique.                              *)
 (* Entry (a, b) = sum over trees, node pairs (u labelled a, v labelled b)  *)
@@ -22,6 +25,10 @@ vars == <<ii, done>>
 x == Insts[ii]
 MASK == V
 KC(t) == [kernel |-> t.kernel]                   \* record understood by CoocCore!KBase / KDen
+\* weight of distance k as a numerator over Den(t)
+W(t, k) == IF k <= t.offset THEN 0 ELSE KBase(KC(t), k)
+WSum(t) == SumSeq([k \in 1..t.r |-> W(t, k)])
+Den(t) == IF t.knorm /\ WSum(t) > 0 THEN WSum(t) ELSE KDen(KC(t))
 Nodes(tr) == DOMAIN tr.par
 RECURSIVE Anc(_, _, _)
 Anc(par, v, k) == IF k = 0 THEN v ELSE IF par[v] = 0 THEN 0 ELSE Anc(par, par[v], k - 1)
@@ -38,7 +45,7 @@ After(t, a, b) ==
    SumSeq([i \in DOMAIN t.trees |->
       LET tr == t.trees[i]  c == Contract(t, tr) IN
       SumOver({uv \in Live(t, tr) \X Live(t, tr) : c.lab[uv[1]] = a /\ c.lab[uv[2]] = b},
-              LAMBDA uv : SumSeq([k \in 1..t.r |-> IF Anc(c.par, uv[2], k) = uv[1] THEN KBase(KC(t), k) ELSE 0]))])
+              LAMBDA uv : SumSeq([k \in 1..t.r |-> IF Anc(c.par, uv[2], k) = uv[1] THEN W(t, k) ELSE 0]))])
 Nul(t, a, b) == t.nullify /\ t.mask /\ (a = MASK \/ b = MASK)
 Aft(t, a, b) == IF Nul(t, a, b) THEN 0 ELSE After(t, a, b)
 Labels(t) == ((0..(V - 1)) \ t.excluded) \cup (IF t.mask THEN {MASK} ELSE {})
@@ -68,12 +75,12 @@ PathLemma == (\A i \in DOMAIN x.trees : IsPath(x.trees[i])) =>
              s == IF x.mask THEN [p \in Nodes(tr) |-> IF tr.lab[p] \in x.excluded THEN MASK ELSE tr.lab[p]]
                   ELSE SelectSeq(tr.lab, LAMBDA l : l \notin x.excluded)
          IN SumOver({pq \in (DOMAIN s) \X (DOMAIN s) : pq[1] < pq[2] /\ pq[2] - pq[1] <= x.r /\ s[pq[1]] = a /\ s[pq[2]] = b},
-                    LAMBDA pq : KBase(KC(x), pq[2] - pq[1]))])
+                    LAMBDA pq : W(x, pq[2] - pq[1]))])
 Init == ii \in DOMAIN Insts /\ done = FALSE
 Next == ~done /\ done' = TRUE /\ UNCHANGED ii
 Spec == Init /\ [][Next]_vars
 EmitInv == IF EMIT /\ done
-           THEN PrintT(ToJson([ii |-> ii, den |-> KDen(KC(x)),
+           THEN PrintT(ToJson([ii |-> ii, den |-> Den(x),
                                cells |-> SetToSeq({[blk |-> c[1], r |-> c[2], c |-> c[3], v |-> c[4]] : c \in {d \in Cells(x) : d[4] # 0}})]))
            ELSE TRUE
 ====
